@@ -23,6 +23,11 @@ for d in sorted(os.listdir(root)):
     inconc = [k for k, v in det.items() if v["exit"] == 2]
     rows.append("| %s | %s | %s | %s |" % (d, m.get("summary", "")[:140].replace("|", "/"),
                                          "; ".join(caught) or "-", "; ".join(["MISSED " + x for x in missed] + ["inconclusive " + x for x in inconc]) or ""))
-print("| seeded change | what it does | caught by (exit 1, reproduced natively) | not caught |")
-print("|---|---|---|---|")
-print("\n".join(rows))
+table = "| seeded change | what it does | caught by (exit 1, reproduced natively) | not caught |\n|---|---|---|---|\n" + "\n".join(rows)
+print(table)
+dp = os.path.join(root, "..", "DESIGN.md")
+d = open(dp).read()
+a, b = "<!-- CATCH:BEGIN -->", "<!-- CATCH:END -->"
+if a in d:
+    d = d[:d.index(a) + len(a)] + "\n" + table + "\n" + d[d.index(b):]
+    open(dp, "w").write(d)
